@@ -16,7 +16,9 @@ RULE = ('Hypothesis draws motor constants in any of the 17 torque x 9 speed x 3 
         'in mixed units, and their +-1..4 ulp neighbours. The motor is driven through its public attributes '
         '(angular_speed, pwm, compute_torque, compute_electric_current) and compared with the piecewise law '
         'typed from the statement; derived checks: anchors at D=1, continuity across the dead-zone boundary, '
-        'exact sign reversal, no exception for any in-domain input. Non-trivial = |D| within 4 ulp of the '
+        'exact sign reversal, no exception for any in-domain input; in a third of the cases the current law is also applied '
+        'to a driving torque set directly after the motor was used at another operating point. in-simulation: recorded '
+        'motor torque and current of controlled simulations vs the law at the recorded speed and duty cycle. Non-trivial = |D| within 4 ulp of the '
         'dead-zone boundary, or |w| beyond the no-load speed, or D < 0; distinct = canonical JSON.')
 ASSUMPTIONS = [
     'for a motor with zero no-load current, non-zero duty cycles are kept >= 1e-9 in magnitude',
@@ -111,6 +113,26 @@ def check(case) -> Result:
             res.bad('C08/anchor-current', f'{case}: I(1,0)={Ia!r} (imax {imax!r}), I(1,w0)={Ib!r} (i0 {i0!r})')
     except Exception as e:  # noqa
         res.bad(f'C08/exception/{type(e).__name__}', f'{case} anchors: {type(e).__name__}: {e}')
+    # the current law applied to a driving torque set through the public attribute, after the motor was used at
+    # another operating point (no stale intermediate may survive a change of duty cycle)
+    if has_i and 'prior' in case and abs(D) > (i0 / imax) * (1 + 1e-9):
+        try:
+            _eval(m, case['prior']['w'], case['prior']['D'], True)
+            m.pwm = D
+            m.angular_speed = U.cls('AngularSpeed')(*case['w'])
+            Tset = M.torque(w, D, Tmax, w0, i0, imax)
+            tu = case['tmax'][1]
+            m.driving_torque = U.cls('Torque')(Tset / U.factor_f('Torque', tu), tu)
+            m.compute_electric_current()
+            c = m.electric_current
+            I3 = U.si('Current', c.value, c.unit)
+            if not abs(I3 - Ie) <= 1e-9 * imax * sc:
+                res.bad('C08/current-law/after-other-operating-point',
+                        f'{case}: current {I3!r} A for a driving torque of {Tset!r} N m set directly at D={D!r}, law gives '
+                        f'{Ie!r} A (the motor was evaluated at {case["prior"]} before)')
+        except Exception as e:  # noqa
+            res.bad(f'C08/exception/{type(e).__name__}', f'{case} after prior point: {type(e).__name__}: {e}')
+        cls.append('prior-point')
     if abs(w) > w0:
         cls.append('beyond-no-load')
     if D < 0:
@@ -177,13 +199,58 @@ def s_case(draw):
     wu = draw(st.sampled_from(list(U.UNITS['AngularSpeed'])))
     ws = w0 * draw(st.one_of(st.floats(-3, 3), st.sampled_from([0.0, 1.0, -1.0, 0.5])))
     case['w'] = [ws / U.factor_f('AngularSpeed', wu), wu]
+    if has_i and draw(st.integers(0, 2)) == 0:
+        case['prior'] = {'D': draw(st.sampled_from([1, -1, 0.4, -0.7, 0.9, 0])),
+                         'w': [w0 * draw(st.floats(-1, 1)), 'rad/s']}
     return case
 
 
+def check_in_simulation(case) -> Result:
+    """recorded motor torque and current at every instant vs the law at the recorded speed and duty cycle"""
+    from vp import simprops as SP
+    from vp import invariants as I
+    res = Result()
+    r = SP.simulate_checked(case, res, ID)
+    if r is None:
+        return res
+    b, traces, err = r
+    mdl = b.model
+    n = 0
+    varied = False
+    for tr, _ in SP.segments(case, traces):
+        if not I.complete(tr) or not I.finite_trace(tr):
+            continue
+        wm, pw, tq = tr.get(0, 'angular speed'), tr.get(0, 'pwm'), tr.get(0, 'driving torque')
+        cur = tr.vars[0].get('electric current')
+        for k in range(tr.n):
+            sc = M.scale(wm[k], pw[k], mdl.w0) if mdl.i0 is not None else 1 + abs(wm[k] / mdl.w0)
+            Te = M.torque(wm[k], pw[k], mdl.Tmax, mdl.w0, mdl.i0, mdl.imax)
+            if not abs(tq[k] - Te) <= 1e-9 * mdl.Tmax * sc:
+                res.bad('C08/in-simulation/torque', f'instant {k}: recorded motor torque {tq[k]!r}, law at recorded speed '
+                        f'{wm[k]!r} and duty cycle {pw[k]!r} gives {Te!r}')
+                break
+            if cur is not None and len(cur) == tr.n:
+                Ie = M.current(wm[k], pw[k], mdl.Tmax, mdl.w0, mdl.i0, mdl.imax)
+                if not abs(cur[k] - Ie) <= 1e-9 * mdl.imax * sc:
+                    res.bad('C08/in-simulation/current', f'instant {k}: recorded current {cur[k]!r} A, law at recorded speed '
+                            f'{wm[k]!r} and duty cycle {pw[k]!r} gives {Ie!r} A')
+                    break
+            n += 1
+        varied = varied or bool(len(pw) and (max(pw) != min(pw)))
+    res.count = max(n, 1)
+    res.nontrivial = varied
+    res.classes += ('duty-varies' if varied else 'duty-constant',)
+    return res
+
+
 def parts(tier):
+    from vp import gen as G
+    sim = Part('in-simulation', check_in_simulation,
+               strategy=G.s_case_controlled(max_len=4, max_steps=30, currents=True),
+               examples=100 if tier == 'quick' else 1500, shards=4 if tier == 'quick' else 4)
     if tier == 'quick':
-        return [Part('motor-law', check, strategy=s_case(), examples=5000, shards=4)]
-    return [Part('motor-law', check, strategy=s_case(), examples=125000, shards=16)]
+        return [Part('motor-law', check, strategy=s_case(), examples=5000, shards=4), sim]
+    return [Part('motor-law', check, strategy=s_case(), examples=125000, shards=12), sim]
 
 
 def selftest():
